@@ -3,11 +3,11 @@ package h
 import (
 	"fmt"
 	"testing"
-	"testing/synctest"
 	"time"
 
 	"verif/refmodel"
 	"verif/rt"
+	"verif/sched"
 	"verif/wire"
 )
 
@@ -64,7 +64,8 @@ func cfgClass(c Cfg) string {
 // InBubble runs f inside a synctest bubble (virtual clock starting 2000-01-01) on a child
 // goroutine so that runtime.Goexit in f is harmless.
 func InBubble(t *testing.T, f func()) {
-	synctest.Test(t, func(t *testing.T) {
+	// goroutines of a batching pool stay parked when the execution ends; sched.Bubble tolerates that
+	_, other := sched.Bubble(t, func() {
 		done := make(chan struct{})
 		go func() {
 			defer close(done)
@@ -72,6 +73,9 @@ func InBubble(t *testing.T, f func()) {
 		}()
 		<-done
 	})
+	if other != nil {
+		panic(other)
+	}
 }
 
 // NoBubble runs f on a child goroutine (so that runtime.Goexit in f is harmless) with the real
@@ -90,6 +94,7 @@ func NoBubble(f func()) {
 func RunSeq(sc SeqScenario, o SeqOpts) *SeqResult {
 	res := &SeqResult{}
 	w := NewWorld(sc.Cfg)
+	defer w.Release()
 	if o.Setup != nil {
 		o.Setup(w)
 	}
